@@ -79,7 +79,6 @@ Qed.
 
 (* ================= association lists keyed by N ================= *)
 
-Definition keys {V} (l : list (N * V)) : list N := map fst l.
 Definition ksorted {V} (l : list (N * V)) : Prop := ssorted (keys l).
 
 Lemma aget_aset_same {V} k (v : V) l : aget k (aset k v l) = Some v.
@@ -231,6 +230,12 @@ Definition fl_ok (c : N) (js : list (N * (N * jstate))) (fl : list (N * N)) : Pr
 Definition cap_ok (sv : list (N * server)) : Prop :=
   forall sid v, aget sid sv = Some v -> 1 <= sv_cpus v /\ len (sv_assigned v) <= slack (sv_cpus v).
 
+(* no leaked reservation: every id in a server's jobs_assigned is a live job of that server or belongs to a
+   call of handle_alloc_job that is still inside its window for that server *)
+Definition noleak (js : list (N * (N * jstate))) (fl : list (N * N)) (sv : list (N * server)) : Prop :=
+  forall sid v j, aget sid sv = Some v -> In j (sv_assigned v) ->
+    (exists stt, aget j js = Some (sid, stt)) \/ aget j fl = Some sid.
+
 Record Inv (s : st) : Prop := mkInv {
   inv_pj : pois_jobs s = false;
   inv_ps : pois_servers s = false;
@@ -242,7 +247,8 @@ Record Inv (s : st) : Prop := mkInv {
   inv_fresh_srv : fresh_srv (job_count s) (servers s);
   inv_fresh_jobs : fresh_jobs (job_count s) (jobs s);
   inv_fl : fl_ok (job_count s) (jobs s) (inflight s);
-  inv_cap : cap_ok (servers s)
+  inv_cap : cap_ok (servers s);
+  inv_noleak : noleak (jobs s) (inflight s) (servers s)
 }.
 
 Lemma Inv_init : Inv init.
@@ -316,11 +322,11 @@ Ltac inv_facts I :=
   pose proof (inv_sets _ I) as Hsets; pose proof (inv_attr _ I) as Hattr;
   pose proof (inv_disj _ I) as Hdisj; pose proof (inv_fresh_srv _ I) as Hfs;
   pose proof (inv_fresh_jobs _ I) as Hfj; pose proof (inv_fl _ I) as Hfl;
-  pose proof (inv_cap _ I) as Hcap.
+  pose proof (inv_cap _ I) as Hcap; pose proof (inv_noleak _ I) as Hnl.
 
 (* ---- heartbeat ---- *)
 
-Lemma heartbeat_Inv sid n c s : Inv s -> Inv (fst (heartbeat sid n c s)).
+Lemma heartbeat_Inv sid n c tf s : Inv s -> Inv (fst (heartbeat sid n c tf s)).
 Proof.
   intros I. inv_facts I. unfold heartbeat. destruct (c =? 0) eqn:C; [exact I|].
   apply N.eqb_neq in C. unfold lock_both. rewrite Hpj, Hps.
@@ -335,19 +341,25 @@ Proof.
       rewrite aget_aset. destruct (k =? sid) eqn:E; [|eauto].
       apply N.eqb_eq in E; subst. rewrite G in Gv. inversion Gv; subst.
       apply smem_false in M. tauto.
-    + apply disj_aset; auto. simpl. tauto.
-    + apply fresh_srv_aset; auto. simpl. tauto.
+    + apply disj_aset; auto; simpl; tauto.
+    + apply fresh_srv_aset; auto; simpl; tauto.
     + intros j x Gj. rewrite aget_drop in Gj. destruct (smem j _); [discriminate|]. eauto.
     + intros j k Gj. destruct (Hfl j k Gj) as [L Nn]. split; auto.
       rewrite aget_drop, Nn. destruct (smem _ _); reflexivity.
     + apply cap_ok_aset; auto; simpl; unfold len; simpl; lia.
+    + intros k v j Gk Ij. apply aget_aset_cases in Gk as [[-> ->]|[Nk Gk]]; [simpl in Ij; tauto|].
+      destruct (Hnl k v j Gk Ij) as [[stt Gj]|F]; [|auto]. left. exists stt. rewrite aget_drop.
+      destruct (smem j (sv_assigned sv)) eqn:M; [|exact Gj].
+      exfalso. apply Nk. apply smem_In in M. exact (Hdisj j _ _ _ _ Gk G Ij M).
   - apply mkInv; simpl; auto.
     + apply ksorted_aset; auto.
     + apply sets_sorted_aset; simpl; auto; constructor.
     + apply attr_aset; auto. intros j stt Gj. destruct (Hattr _ _ _ Gj) as [v [Gv _]]. congruence.
-    + apply disj_aset; auto. simpl. tauto.
-    + apply fresh_srv_aset; auto. simpl. tauto.
+    + apply disj_aset; auto; simpl; tauto.
+    + apply fresh_srv_aset; auto; simpl; tauto.
     + apply cap_ok_aset; auto; simpl; unfold len; simpl; lia.
+    + intros k v j Gk Ij. apply aget_aset_cases in Gk as [[-> ->]|[Nk Gk]]; [simpl in Ij; tauto|].
+      exact (Hnl k v j Gk Ij).
 Qed.
 
 (* ---- the choice of the server ---- *)
@@ -370,7 +382,7 @@ Proof.
   - destruct (load_lt _ max_per_core_load 1) eqn:LL; [|split; auto].
     apply load_lt_slack in LL.
     destruct (sel_err a) as [[kv0 be]|] eqn:SE.
-    + destruct (e <? be); [|split; auto].
+    + destruct (e <? be); [|split; [auto | intros kv1 e1 H; rewrite SE in H; eauto]].
       split; simpl; auto. intros kv1 e1 H; inversion H; subst; auto.
     + split; simpl; auto. intros kv1 e1 H; inversion H; subst; auto.
   - destruct (load_lt _ (sel_bn a) (sel_bd a)) eqn:LL; [|split; auto].
@@ -416,10 +428,19 @@ Qed.
 
 (* ---- alloc_begin ---- *)
 
-Lemma alloc_begin_Inv ord s : Inv s -> Inv (fst (alloc_begin ord s)).
+Lemma bump_Inv s : Inv s -> Inv (set_job_count s (job_count s + 1)).
+Proof.
+  intros I. inv_facts I. apply mkInv; simpl; auto.
+  - eapply fresh_srv_mono; eauto. lia.
+  - intros j x Gj. specialize (Hfj j x Gj). lia.
+  - intros j k Gj. destruct (Hfl j k Gj). split; [lia | auto].
+Qed.
+
+Lemma alloc_begin_Inv ord s : Inv s -> Inv (fst (alloc_begin true ord s)).
 Proof.
   intros I. inv_facts I. unfold alloc_begin. rewrite Hps.
   destruct (choose _) as [[sid sv]|] eqn:CH; [|exact I].
+  simpl. destruct (sv_tokfail sv); [apply bump_Inv; exact I|].
   apply choose_good in CH as [Hin Hlt]. simpl in Hlt. apply iter_order_In in Hin; auto.
   assert (Hnj : ~ In (job_count s) (sv_assigned sv)).
   { intro X. specialize (Hfs sid sv _ Hin (or_introl X)). lia. }
@@ -445,23 +466,37 @@ Proof.
       destruct (aget (job_count s) (jobs s)) eqn:X; auto. specialize (Hfj _ _ X). lia.
     + destruct (Hfl j k Gj). split; [lia | auto].
   - apply cap_ok_aset; auto. simpl. unfold len in *. rewrite length_sins; auto. lia.
+  - intros k v j Gk Ij. rewrite aget_aset.
+    apply aget_aset_cases in Gk as [[-> ->]|[Nk Gk]].
+    + simpl in Ij. apply In_sins in Ij as [->|Ij]; [rewrite N.eqb_refl; auto|].
+      destruct (j =? job_count s) eqn:E; [auto|]. exact (Hnl sid sv j Hin Ij).
+    + destruct (j =? job_count s) eqn:E; [|exact (Hnl k v j Gk Ij)].
+      apply N.eqb_eq in E; subst j. specialize (Hfs k v _ Gk (or_introl Ij)). lia.
 Qed.
 
 (* ---- alloc_end_fail / alloc_end_ok ---- *)
 
-Lemma leave_window_Inv j s : Inv s -> Inv (set_inflight s (adel j (inflight s))).
+Lemma leave_window_Inv j sid s :
+  Inv s -> aget j (inflight s) = Some sid ->
+  (forall sv, aget sid (servers s) = Some sv -> ~ In j (sv_assigned sv)) ->
+  Inv (set_inflight s (adel j (inflight s))).
 Proof.
-  intros I. inv_facts I. apply mkInv; simpl; auto.
-  intros j' k Gj. rewrite aget_adel in Gj. destruct (j' =? j); [discriminate|]. eauto.
+  intros I F Hno. inv_facts I. apply mkInv; simpl; auto.
+  - intros j' k Gj. rewrite aget_adel in Gj. destruct (j' =? j); [discriminate|]. eauto.
+  - intros k v j' Gk Ij. rewrite aget_adel. destruct (j' =? j) eqn:E; [|exact (Hnl k v j' Gk Ij)].
+    apply N.eqb_eq in E; subst j'. destruct (Hfl _ _ F) as [_ Nj].
+    destruct (Hnl k v j Gk Ij) as [[stt Gj]|F']; [congruence|].
+    rewrite F in F'; inversion F'; subst k. exfalso. exact (Hno v Gk Ij).
 Qed.
 
 Lemma alloc_end_fail_Inv j s : Inv s -> Inv (fst (alloc_end_fail j s)).
 Proof.
   intros I. unfold alloc_end_fail. destruct (aget j (inflight s)) as [sid|] eqn:F; [|exact I].
   destruct (inv_fl _ I _ _ F) as [_ Nj].
-  pose proof (leave_window_Inv j s I) as I0. inv_facts I. rewrite Hps.
-  destruct (aget sid (servers s)) as [sv|] eqn:G; [|exact I0].
-  clear I0. destruct (Hsets _ _ G) as [Sa Su]. destruct (Hcap _ _ G) as [C1 C2].
+  inv_facts I. rewrite Hps.
+  destruct (aget sid (servers s)) as [sv|] eqn:G;
+    [|apply (leave_window_Inv j sid s I F); intros sv G'; congruence].
+  destruct (Hsets _ _ G) as [Sa Su]. destruct (Hcap _ _ G) as [C1 C2].
   apply mkInv; simpl; auto.
   - apply ksorted_aset; auto.
   - apply sets_sorted_aset; simpl; auto; apply ssorted_srem; auto.
@@ -473,17 +508,28 @@ Proof.
     intros j' [Ij|Ij]; apply In_srem in Ij as [Ij _]; eapply Hfs; eauto.
   - intros j' k Gj. rewrite aget_adel in Gj. destruct (j' =? j); [discriminate|]. eauto.
   - apply cap_ok_aset; auto. simpl.
-    eapply N.le_trans; [apply len_le, length_srem_le | exact C2].
+    apply N.le_trans with (len (sv_assigned sv)); [apply len_le; apply length_srem_le | exact C2].
+  - intros k v j' Gk Ij. rewrite aget_adel.
+    assert (Nj' : j' <> j).
+    { apply aget_aset_cases in Gk as [[-> ->]|[Nk Gk]].
+      - simpl in Ij. apply In_srem in Ij. tauto.
+      - intro; subst j'. destruct (Hnl k v j Gk Ij) as [[stt Gj]|F']; congruence. }
+    apply N.eqb_neq in Nj'. rewrite Nj'.
+    apply aget_aset_cases in Gk as [[-> ->]|[Nk Gk]]; [|exact (Hnl k v j' Gk Ij)].
+    simpl in Ij. apply In_srem in Ij as [Ij _]. exact (Hnl sid sv j' G Ij).
 Qed.
 
 Lemma alloc_end_ok_Inv j stt s : Inv s -> Inv (fst (alloc_end_ok true j stt s)).
 Proof.
   intros I. unfold alloc_end_ok. destruct (aget j (inflight s)) as [sid|] eqn:F; [|exact I].
   destruct (inv_fl _ I _ _ F) as [Lj Nj].
-  pose proof (leave_window_Inv j s I) as I0. inv_facts I. rewrite Hpj, Hps.
-  destruct (aget sid (servers s)) as [sv|] eqn:G; [|exact I0].
-  destruct (smem j (sv_assigned sv)) eqn:M; [|exact I0].
-  clear I0. unfold record_job. simpl. rewrite (proj2 (amem_false _ _) Nj). simpl.
+  inv_facts I. rewrite Hpj, Hps.
+  destruct (aget sid (servers s)) as [sv|] eqn:G;
+    [|apply (leave_window_Inv j sid s I F); intros sv G'; congruence].
+  destruct (smem j (sv_assigned sv)) eqn:M;
+    [|apply (leave_window_Inv j sid s I F); intros sv' G'; rewrite G in G'; inversion G'; subst sv';
+      apply smem_false; exact M].
+  unfold record_job. simpl. rewrite (proj2 (amem_false _ _) Nj). simpl.
   apply mkInv; simpl; auto.
   - apply ksorted_aset; auto.
   - intros j' k stt' Gj. rewrite aget_aset in Gj. destruct (j' =? j) eqn:E; [|eauto].
@@ -492,6 +538,10 @@ Proof.
     apply N.eqb_eq in E; subst. exact Lj.
   - intros j' k Gj. rewrite aget_adel in Gj. destruct (j' =? j) eqn:E; [discriminate|].
     destruct (Hfl _ _ Gj). split; auto. rewrite aget_aset, E. auto.
+  - intros k v j' Gk Ij. rewrite aget_aset, aget_adel. destruct (j' =? j) eqn:E.
+    + apply N.eqb_eq in E; subst j'. left. exists stt. f_equal. f_equal.
+      apply smem_In in M. exact (Hdisj j _ _ _ _ G Gk M Ij).
+    + exact (Hnl k v j' Gk Ij).
 Qed.
 
 (* ---- update_job_state ---- *)
@@ -508,6 +558,9 @@ Proof.
   - intros j' k Gj. destruct (Hfl _ _ Gj) as [L Nn]. split; auto.
     rewrite aget_aset. destruct (j' =? j) eqn:E; auto.
     apply N.eqb_eq in E; subst. congruence.
+  - intros k v j' Gk Ij. rewrite aget_aset. destruct (j' =? j) eqn:E; [|exact (Hnl k v j' Gk Ij)].
+    apply N.eqb_eq in E; subst j'. left.
+    destruct (Hattr _ _ _ G) as [v0 [G0 I0]]. rewrite (Hdisj j _ _ _ _ Gk G0 Ij I0). eauto.
 Qed.
 
 Lemma claim_Inv j sid sv s :
@@ -524,6 +577,8 @@ Proof.
   - apply fresh_srv_aset; auto. simpl.
     intros j' [Ij|Ij]; [|apply In_srem in Ij as [Ij _]]; eapply Hfs; eauto.
   - apply cap_ok_aset; auto.
+  - intros k v j' Gk Ij. apply aget_aset_cases in Gk as [[-> ->]|[Nk Gk]]; [|exact (Hnl k v j' Gk Ij)].
+    simpl in Ij. exact (Hnl sid sv j' G Ij).
 Qed.
 
 Lemma complete_Inv j sid cur sv s :
@@ -548,7 +603,16 @@ Proof.
   - intros j' k Gj. destruct (Hfl _ _ Gj) as [L Nn]. split; auto.
     rewrite aget_adel, Nn. destruct (j' =? j); reflexivity.
   - apply cap_ok_aset; auto. simpl.
-    eapply N.le_trans; [apply len_le, length_srem_le | exact C2].
+    apply N.le_trans with (len (sv_assigned sv)); [apply len_le; apply length_srem_le | exact C2].
+  - destruct (Hattr _ _ _ Gj0) as [v0 [G0 I0]]. rewrite G in G0; inversion G0; subst v0.
+    intros k v j' Gk Ij. rewrite aget_adel.
+    assert (Nj' : j' <> j).
+    { apply aget_aset_cases in Gk as [[-> ->]|[Nk Gk]].
+      - simpl in Ij. apply In_srem in Ij. tauto.
+      - intro; subst j'. apply Nk. exact (Hdisj j _ _ _ _ Gk G Ij I0). }
+    apply N.eqb_neq in Nj'. rewrite Nj'.
+    apply aget_aset_cases in Gk as [[-> ->]|[Nk Gk]]; [|exact (Hnl k v j' Gk Ij)].
+    simpl in Ij. apply In_srem in Ij as [Ij _]. exact (Hnl sid sv j' G Ij).
 Qed.
 
 Lemma update_Inv j sid stt s : Inv s -> Inv (fst (update true j sid stt s)).
@@ -592,3 +656,311 @@ Qed.
 
 Corollary reachable_Inv ms : Inv (run true init ms).
 Proof. apply run_Inv, Inv_init. Qed.
+
+(* ================= constants read from the Rust source ================= *)
+
+Lemma consts_ok :
+  transitions = [(Pending, Ready); (Ready, Started); (Started, Complete)] /\
+  max_per_core_load = 2 /\ slack_add = 1 /\ slack_div = 8.
+Proof. repeat split; vm_compute; reflexivity. Qed.
+
+Lemma trans_ok_next a b : trans_ok a b = true <-> next_state a = Some b.
+Proof. destruct a, b; vm_compute; split; intro H; congruence. Qed.
+
+Lemma slack_capacity c : slack c = capacity c.
+Proof. reflexivity. Qed.
+
+Lemma capacity_le_max c : 1 <= c -> capacity c <= max_per_core_load * c.
+Proof.
+  intro H. unfold capacity. change max_per_core_load with 2.
+  assert (c / 8 < c) by (apply N.div_lt; lia). lia.
+Qed.
+
+(* ================= no handler panics ================= *)
+
+Lemma no_panic s m : Inv s -> snd (step true s m) <> OPanic.
+Proof.
+  intros I. inv_facts I. destruct m as [sid n c tf|ord|j stt|j|j sid stt|]; simpl.
+  - unfold heartbeat, lock_both. rewrite Hpj, Hps.
+    destruct (c =? 0); [discriminate|].
+    destruct (aget sid (servers s)) as [sv|]; [destruct (sv_nonce sv =? n)|]; discriminate.
+  - unfold alloc_begin. rewrite Hps.
+    destruct (choose _) as [[sid sv]|] eqn:CH; [|discriminate].
+    simpl. destruct (sv_tokfail sv); [discriminate|].
+    apply choose_good in CH as [Hin _]. apply iter_order_In in Hin; auto.
+    assert (Hnj : ~ In (job_count s) (sv_assigned sv)).
+    { intro X. specialize (Hfs sid sv _ Hin (or_introl X)). lia. }
+    assert (Hnu : ~ In (job_count s) (sv_unclaimed sv)).
+    { intro X. specialize (Hfs sid sv _ Hin (or_intror X)). lia. }
+    rewrite (proj2 (smem_false _ _) Hnj). simpl. rewrite (proj2 (smem_false _ _) Hnu). discriminate.
+  - unfold alloc_end_ok. destruct (aget j (inflight s)) as [sid|] eqn:F; [|discriminate].
+    destruct (Hfl _ _ F) as [_ Nj]. rewrite Hpj, Hps.
+    destruct (aget sid (servers s)) as [sv|]; [destruct (smem j (sv_assigned sv))|]; try discriminate.
+    unfold record_job. simpl. rewrite (proj2 (amem_false _ _) Nj). discriminate.
+  - unfold alloc_end_fail. destruct (aget j (inflight s)) as [sid|]; [|discriminate].
+    rewrite Hps. destruct (aget sid (servers s)) as [sv|]; discriminate.
+  - unfold update, lock_both. rewrite Hpj, Hps.
+    destruct (aget j (jobs s)) as [[owner cur]|]; [|discriminate].
+    destruct (negb (owner =? sid)); [discriminate|].
+    destruct (negb (trans_ok cur stt)); [discriminate|].
+    destruct stt; try discriminate;
+      destruct (aget sid (servers s)) as [sv|]; try discriminate.
+    destruct (smem j (sv_assigned sv)); discriminate.
+  - unfold status, lock_both. rewrite Hpj, Hps. discriminate.
+Qed.
+
+(* ================= how each message changes the recorded jobs ================= *)
+
+Lemma alloc_begin_jobs fx ord s : jobs (fst (alloc_begin fx ord s)) = jobs s.
+Proof.
+  unfold alloc_begin. destruct (pois_servers s); [reflexivity|].
+  destruct (choose _) as [[sid sv]|]; [|reflexivity].
+  destruct (fx && sv_tokfail sv); [reflexivity|].
+  destruct (smem (job_count s) (sv_assigned sv)); [reflexivity|].
+  simpl. destruct (smem (job_count s) (sv_unclaimed sv)); [reflexivity|].
+  destruct (sv_tokfail sv); reflexivity.
+Qed.
+
+Lemma alloc_end_fail_jobs j s : jobs (fst (alloc_end_fail j s)) = jobs s.
+Proof.
+  unfold alloc_end_fail. destruct (aget j (inflight s)) as [sid|]; [|reflexivity].
+  destruct (pois_servers s); [reflexivity|].
+  destruct (aget sid (servers s)); reflexivity.
+Qed.
+
+Lemma status_jobs s : jobs (fst (status s)) = jobs s.
+Proof. unfold status, lock_both. destruct (pois_jobs s), (pois_servers s); reflexivity. Qed.
+
+Lemma alloc_end_ok_jobs j stt s :
+  Inv s ->
+  jobs (fst (alloc_end_ok true j stt s)) = jobs s \/
+  exists sid, aget j (inflight s) = Some sid /\ aget j (jobs s) = None /\
+              snd (alloc_end_ok true j stt s) = OAllocOk j sid /\
+              jobs (fst (alloc_end_ok true j stt s)) = aset j (sid, stt) (jobs s).
+Proof.
+  intros I. inv_facts I. unfold alloc_end_ok.
+  destruct (aget j (inflight s)) as [sid|] eqn:F; [|left; reflexivity].
+  destruct (Hfl _ _ F) as [_ Nj]. rewrite Hpj, Hps.
+  destruct (aget sid (servers s)) as [sv|]; [destruct (smem j (sv_assigned sv))|];
+    try (left; reflexivity).
+  right. exists sid. unfold record_job. simpl. rewrite (proj2 (amem_false _ _) Nj). simpl. auto.
+Qed.
+
+Lemma heartbeat_jobs sid n c tf s :
+  Inv s ->
+  jobs (fst (heartbeat sid n c tf s)) = jobs s \/
+  exists sv, aget sid (servers s) = Some sv /\ snd (heartbeat sid n c tf s) = OHb true /\
+             jobs (fst (heartbeat sid n c tf s)) = filter (fun kv => negb (smem (fst kv) (sv_assigned sv))) (jobs s).
+Proof.
+  intros I. unfold heartbeat, lock_both. rewrite (inv_pj _ I), (inv_ps _ I).
+  destruct (c =? 0); [left; reflexivity|].
+  destruct (aget sid (servers s)) as [sv|]; [|left; reflexivity].
+  destruct (sv_nonce sv =? n); [left; reflexivity|]. right. exists sv. simpl. auto.
+Qed.
+
+Lemma update_jobs j sid stt s :
+  Inv s ->
+  (snd (update true j sid stt s) <> OUpd UOk /\ fst (update true j sid stt s) = s) \/
+  exists cur, aget j (jobs s) = Some (sid, cur) /\ next_state cur = Some stt /\
+              snd (update true j sid stt s) = OUpd UOk /\
+              jobs (fst (update true j sid stt s)) =
+                match stt with Complete => adel j (jobs s) | _ => aset j (sid, stt) (jobs s) end.
+Proof.
+  intros I. unfold update, lock_both. rewrite (inv_pj _ I), (inv_ps _ I).
+  destruct (aget j (jobs s)) as [[owner cur]|] eqn:G; [|left; split; [discriminate | reflexivity]].
+  destruct (owner =? sid) eqn:O; simpl; [|left; split; [discriminate | reflexivity]].
+  apply N.eqb_eq in O; subst owner.
+  destruct (trans_ok cur stt) eqn:T; simpl; [|left; split; [discriminate | reflexivity]].
+  apply trans_ok_next in T.
+  destruct (inv_attr _ I _ _ _ G) as [sv [Gs Is]].
+  right. exists cur. split; [reflexivity|]. split; [exact T|].
+  destruct stt; simpl; auto.
+  - rewrite Gs. simpl. auto.
+  - rewrite Gs. rewrite (proj2 (smem_In _ _) Is). simpl. auto.
+Qed.
+
+(* ================= the properties ================= *)
+
+Lemma attribution_Inv s j sid stt :
+  Inv s -> aget j (jobs s) = Some (sid, stt) ->
+  (exists sv, aget sid (servers s) = Some sv /\ In j (sv_assigned sv)) /\
+  (forall sid' sv', aget sid' (servers s) = Some sv' -> In j (sv_assigned sv') -> sid' = sid).
+Proof.
+  intros I G. destruct (inv_attr _ I _ _ _ G) as [sv [Gs Is]]. split; [eauto|].
+  intros sid' sv' G' I'. exact (inv_disj _ I j _ _ _ _ G' Gs I' Is).
+Qed.
+
+Lemma ksorted_filter {V} (p : N * V -> bool) (l : list (N * V)) : ksorted l -> ksorted (filter p l).
+Proof.
+  unfold ksorted, keys, ssorted. induction l as [|[k v] r IH]; simpl; intro Hs; [constructor|].
+  inversion Hs as [|? ? Hs' Hf]; subst.
+  destruct (p (k, v)); simpl; auto. constructor; auto.
+  rewrite Forall_forall in *. intros x Hx. apply Hf.
+  apply in_map_iff in Hx as [[k' v'] [E Hx]]. apply filter_In in Hx as [Hx _].
+  apply in_map_iff. exists (k', v'). auto.
+Qed.
+
+Lemma live_le_assigned s sid sv :
+  Inv s -> aget sid (servers s) = Some sv -> len (live_on sid s) <= len (sv_assigned sv).
+Proof.
+  intros I G. apply len_le.
+  rewrite <- (map_length fst (live_on sid s)).
+  apply NoDup_incl_length.
+  - apply ssorted_NoDup. apply (ksorted_filter _ (jobs s)). apply (inv_jobs_sorted _ I).
+  - intros j Hj. apply in_map_iff in Hj as [[j' [k stt]] [E Hj]]. simpl in E; subst j'.
+    apply filter_In in Hj as [Hj Hk]. simpl in Hk. apply N.eqb_eq in Hk; subst k.
+    apply In_aget in Hj; [|apply (inv_jobs_sorted _ I)].
+    destruct (inv_attr _ I _ _ _ Hj) as [v [Gv Iv]]. congruence.
+Qed.
+
+Lemma capacity_Inv s sid sv :
+  Inv s -> aget sid (servers s) = Some sv ->
+  1 <= sv_cpus sv /\ NoDup (sv_assigned sv) /\
+  len (sv_assigned sv) <= capacity (sv_cpus sv) /\
+  len (live_on sid s) <= capacity (sv_cpus sv) /\
+  capacity (sv_cpus sv) <= 2 * sv_cpus sv.
+Proof.
+  intros I G. destruct (inv_cap _ I _ _ G) as [C1 C2]. rewrite slack_capacity in C2.
+  split; [exact C1|]. split; [apply ssorted_NoDup, (inv_sets _ I _ _ G)|].
+  split; [exact C2|]. split.
+  - eapply N.le_trans; [apply live_le_assigned; eauto | exact C2].
+  - apply (capacity_le_max _ C1).
+Qed.
+
+Lemma transitions_Inv s m j :
+  Inv s ->
+  match aget j (jobs s), aget j (jobs (fst (step true s m))) with
+  | Some (sid, a), Some (sid', b) =>
+      sid' = sid /\ (b = a \/ (m = MUpdate j sid b /\ next_state a = Some b))
+  | Some (sid, a), None =>
+      (m = MUpdate j sid Complete /\ a = Started) \/
+      (exists n c tf, m = MHeartbeat sid n c tf /\ snd (step true s m) = OHb true)
+  | None, Some (sid, b) => m = MAllocEndOk j b /\ aget j (inflight s) = Some sid
+  | None, None => True
+  end.
+Proof.
+  intros I.
+  assert (Same : forall js, js = jobs s ->
+            match aget j (jobs s), aget j js with
+            | Some (sid, a), Some (sid', b) =>
+                sid' = sid /\ (b = a \/ (m = MUpdate j sid b /\ next_state a = Some b))
+            | Some (sid, a), None =>
+                (m = MUpdate j sid Complete /\ a = Started) \/
+                (exists n c tf, m = MHeartbeat sid n c tf /\ snd (step true s m) = OHb true)
+            | None, Some (sid, b) => m = MAllocEndOk j b /\ aget j (inflight s) = Some sid
+            | None, None => True
+            end).
+  { intros js ->. destruct (aget j (jobs s)) as [[sid a]|]; auto. }
+  destruct m as [sid n c tf|ord|j0 stt|j0|j0 sid stt|]; simpl.
+  - destruct (heartbeat_jobs sid n c tf s I) as [E|[sv [G [O E]]]]; [apply Same; exact E|].
+    rewrite E, aget_drop.
+    destruct (aget j (jobs s)) as [[sid0 a]|] eqn:Gj.
+    + destruct (smem j (sv_assigned sv)) eqn:M; [|auto].
+      right. exists n, c, tf. split; [|exact O]. f_equal.
+      destruct (inv_attr _ I _ _ _ Gj) as [v0 [G0 I0]].
+      apply smem_In in M. exact (inv_disj _ I j _ _ _ _ G G0 M I0).
+    + destruct (smem j (sv_assigned sv)); exact Logic.I.
+  - apply Same. apply alloc_begin_jobs.
+  - destruct (alloc_end_ok_jobs j0 stt s I) as [E|[sid [F [Nj [O E]]]]]; [apply Same; exact E|].
+    rewrite E, aget_aset. destruct (j =? j0) eqn:Ej.
+    + apply N.eqb_eq in Ej; subst j0. rewrite Nj. auto.
+    + destruct (aget j (jobs s)) as [[sid0 a]|]; auto.
+  - apply Same. apply alloc_end_fail_jobs.
+  - destruct (update_jobs j0 sid stt s I) as [[_ E]|[cur [G [T [O E]]]]]; [apply Same; rewrite E; reflexivity|].
+    rewrite E. destruct (j =? j0) eqn:Ej.
+    + apply N.eqb_eq in Ej; subst j0. rewrite G.
+      destruct stt; rewrite ?aget_aset, ?aget_adel, N.eqb_refl; auto.
+      left. split; [reflexivity|]. destruct cur; simpl in T; congruence.
+    + assert (Eq : aget j (match stt with Complete => adel j0 (jobs s) | _ => aset j0 (sid, stt) (jobs s) end)
+                   = aget j (jobs s)).
+      { destruct stt; rewrite ?aget_aset, ?aget_adel, Ej; reflexivity. }
+      rewrite Eq. destruct (aget j (jobs s)) as [[sid0 a]|]; auto.
+  - apply Same. apply status_jobs.
+Qed.
+
+Lemma update_result_Inv s j sid b :
+  Inv s ->
+  (snd (step true s (MUpdate j sid b)) = OUpd UOk <->
+     exists a, aget j (jobs s) = Some (sid, a) /\ next_state a = Some b) /\
+  (snd (step true s (MUpdate j sid b)) <> OUpd UOk -> fst (step true s (MUpdate j sid b)) = s).
+Proof.
+  intros I. simpl. destruct (update_jobs j sid b s I) as [[Nok E]|[cur [G [T [O E]]]]].
+  - split; [|auto]. split; [congruence|]. intros [a [G T]]. exfalso. apply Nok.
+    unfold update, lock_both. rewrite (inv_pj _ I), (inv_ps _ I), G, N.eqb_refl. simpl.
+    rewrite (proj2 (trans_ok_next a b) T). simpl.
+    destruct (inv_attr _ I _ _ _ G) as [sv [Gs Is]].
+    destruct b; simpl; auto; rewrite Gs; auto.
+    rewrite (proj2 (smem_In _ _) Is). reflexivity.
+  - split; [|congruence]. split; eauto.
+Qed.
+
+Lemma status_Inv_out s :
+  Inv s ->
+  step true s MStatus = (s, OStatus (len (servers s)) (sum_cpus (servers s)) (len (jobs s))) /\
+  NoDup (keys (jobs s)).
+Proof.
+  intro I. simpl. unfold status, lock_both. rewrite (inv_pj _ I), (inv_ps _ I).
+  split; [reflexivity|]. apply ssorted_NoDup, (inv_jobs_sorted _ I).
+Qed.
+
+(* ================= the defect S8 of the code before the fix, replayed in the model (fx = false) ================= *)
+
+Lemma noleak_Inv s sid sv j :
+  Inv s -> aget sid (servers s) = Some sv -> In j (sv_assigned sv) ->
+  (exists stt, aget j (jobs s) = Some (sid, stt)) \/ aget j (inflight s) = Some sid.
+Proof. intros I G Ij. exact (inv_noleak _ I sid sv j G Ij). Qed.
+
+Definition s8_history : list msg :=
+  [MHeartbeat 0 1 1 false; MAllocBegin []; MHeartbeat 0 2 1 false; MAllocEndOk 0 Ready; MUpdate 0 0 Started].
+
+Definition s8_overload : list msg :=
+  MHeartbeat 0 1 1 false ::
+  concat (map (fun k => [MAllocBegin []; MHeartbeat 0 (k + 2) 1 false; MAllocEndOk k Ready]) [0; 1; 2; 3; 4]).
+
+Lemma unfixed_refuted :
+  (let s := run false init s8_history in
+     (exists sv, aget 0 (jobs s) = Some (0, Started) /\ aget 0 (servers s) = Some sv /\ sv_assigned sv = []) /\
+     snd (step false s (MUpdate 0 0 Complete)) = OPanic /\
+     (let s' := fst (step false s (MUpdate 0 0 Complete)) in
+        snd (step false s' MStatus) = OPanic /\ snd (step false s' (MHeartbeat 0 2 1 false)) = OPanic /\
+        snd (step false s' (MAllocBegin [])) = OPanic)) /\
+  (let s := run false init s8_overload in
+     exists sv, aget 0 (servers s) = Some sv /\ sv_cpus sv = 1 /\ len (live_on 0 s) = 5).
+Proof.
+  split.
+  - split; [eexists; vm_compute; repeat split; reflexivity|]. vm_compute. repeat split; reflexivity.
+  - eexists. vm_compute. repeat split; reflexivity.
+Qed.
+
+(* the same histories on the fixed code: the allocation is refused, nothing is recorded *)
+Lemma fixed_s8 :
+  snd (step true (run true init [MHeartbeat 0 1 1 false; MAllocBegin []; MHeartbeat 0 2 1 false]) (MAllocEndOk 0 Ready))
+    = OAllocGone 0 0 /\
+  jobs (run true init s8_history) = [] /\ jobs (run true init s8_overload) = [].
+Proof. vm_compute. repeat split; reflexivity. Qed.
+
+(* non-vacuity: a reachable state with a recorded job, a call in its window and a full server *)
+Lemma nonvacuous :
+  let s := run true init [MHeartbeat 0 1 1 false; MAllocBegin []; MAllocEndOk 0 Ready; MAllocBegin []] in
+  jobs s = [(0, (0, Ready))] /\ inflight s = [(1, 0)] /\
+  (exists sv, aget 0 (servers s) = Some sv /\ len (sv_assigned sv) = capacity (sv_cpus sv)) /\
+  snd (step true s (MAllocBegin [])) = OAllocNoCap 1.
+Proof.
+  vm_compute. split; [reflexivity|]. split; [reflexivity|].
+  split; [eexists; split; reflexivity | reflexivity].
+Qed.
+
+(* defect S21 of the code before the second fix: a failing generate_token left the reservation behind *)
+Definition s21_history : list msg := [MHeartbeat 0 1 1 true; MAllocBegin []; MAllocBegin []].
+
+Lemma unfixed_leak_refuted :
+  let s := run false init s21_history in
+  (exists sv, aget 0 (servers s) = Some sv /\ sv_assigned sv = [0; 1]) /\ jobs s = [] /\ inflight s = [] /\
+  snd (step false s (MAllocBegin [])) = OAllocNoCap 1.
+Proof. vm_compute. split; [eexists; split; reflexivity|]. repeat split; reflexivity. Qed.
+
+Lemma fixed_s21 :
+  let s := run true init s21_history in
+  (exists sv, aget 0 (servers s) = Some sv /\ sv_assigned sv = []) /\
+  snd (step true s (MAllocBegin [])) = OAllocTokErr.
+Proof. vm_compute. split; [eexists; split; reflexivity | reflexivity]. Qed.
